@@ -23,6 +23,8 @@
         std::panic::set_hook(prev);
         r.map_err(|e| e.downcast_ref::<String>().cloned().or_else(|| e.downcast_ref::<&str>().map(|s| s.to_string())).unwrap_or_else(|| "panic".to_string()))
     }
+    /// VERIF_TIER=thorough widens the input families (the bound printed in the evidence names both)
+    pub fn thorough() -> bool { std::env::var("VERIF_TIER").map(|v| v == "thorough").unwrap_or(false) }
     pub fn hex(b: &[u8]) -> String {
         if b.len() <= 96 { b.iter().map(|x| format!("{:02x}", x)).collect::<Vec<_>>().join(" ") }
         else { format!("{} .. ({} bytes) .. {}", hex(&b[..48]), b.len(), hex(&b[b.len() - 16..])) }
